@@ -728,6 +728,78 @@ def phase_stream(ctx, env, cases, label, combos_per_case=None, builds=('plain',)
                                   build=b, geom=geom, key=key), nofail=key.startswith('tie'))
 
 
+# ----------------------------------------------------------------------------- AddNewIntersectNode tie
+ANI_BRANCH = {0: 'no repair', 1: 'closest point on e1', 2: 'closest point on e2', 3: 'clamp to top_y, TopX(e1)', 4: 'clamp to top_y, TopX(e2)',
+              5: 'clamp to bot_y, TopX(e1)', 6: 'clamp to bot_y, TopX(e2)'}
+
+
+def gen_ani(rng):
+    """two non-horizontal edges (flat: |dx| just above / far above 100, steep: below, and exactly 100) and a scanbeam; the
+    scanbeam is drawn independently of the crossing so that the computed point falls outside it in about half of the cases"""
+    def edge():
+        by, h = rng.range(-60, 60), rng.range(1, 40)
+        kind = rng.below(4)
+        if kind == 0:
+            L = rng.range(100 * h + 1, 400 * h)
+        elif kind == 1:
+            L = 100 * h + rng.range(-2, 2)           # |dx| = 100 +- a little: the comparison itself
+        else:
+            L = rng.range(0, 100 * h)
+        bx = rng.range(-3000, 3000)
+        return (bx, by), (bx + rng.choice([1, -1]) * L, by - h)
+    (b1, t1), (b2, t2) = edge(), edge()
+    if rng.chance(1, 3):                              # make them cross near a common point
+        cx, cy = rng.range(-50, 50), rng.range(-40, 40)
+        sh = lambda p, q, dxy: ((p[0] + dxy[0], p[1] + dxy[1]), (q[0] + dxy[0], q[1] + dxy[1]))
+        m1 = ((b1[0] + t1[0]) // 2, (b1[1] + t1[1]) // 2); m2 = ((b2[0] + t2[0]) // 2, (b2[1] + t2[1]) // 2)
+        b1, t1 = sh(b1, t1, (cx - m1[0], cy - m1[1])); b2, t2 = sh(b2, t2, (cx - m2[0] + rng.range(-3, 3), cy - m2[1] + rng.range(-3, 3)))
+    if rng.chance(1, 12):
+        b2, t2 = (b1[0] + rng.range(-5, 5), b1[1]), (t1[0] + (0 if rng.chance(1, 2) else rng.range(-1, 1)), t1[1])   # (nearly) parallel
+    ys = sorted([rng.range(-70, 70), rng.range(-70, 70)])
+    if rng.chance(1, 6):
+        ys[1] = ys[0]
+    k = rng.choice([1, 1, 1, 1 << 10, 1 << 20, 1 << 30, 1 << 40])
+    j = (lambda: rng.range(-(k // 4), k // 4)) if k > 1 else (lambda: 0)
+    sc = lambda p: (p[0] * k + j(), p[1] * k + (j() if rng.chance(1, 2) else 0))
+    b1, t1, b2, t2 = sc(b1), sc(t1), sc(b2), sc(t2)
+    if t1[1] >= b1[1] or t2[1] >= b2[1]:
+        return None
+    return '%d %d %d %d %d %d %d %d %d %d' % (b1[0], b1[1], t1[0], t1[1], b2[0], b2[1], t2[0], t2[1], ys[1] * k, ys[0] * k)
+
+
+def phase_isect_node(ctx, n):
+    """exact correspondence of model/IsectNode.v (branch structure of the out-of-scanbeam repair over the regenerated leaf
+    functions) with the real ClipperBase::AddNewIntersectNode on synthetic edges, default and HI_PRECISION builds"""
+    try:
+        exes = dict(lo=vf.build_cpp(ctx, 'cx_isectnode.cpp', 'plain'), hi=vf.build_cpp(ctx, 'cx_isectnode.cpp', 'hi'))
+    except vf.BuildFailure as e:
+        ctx.violation('tie-break:cx_isectnode', 'AddNewIntersectNode harness no longer builds: %s' % str(e)[-500:], replay=dict(error=str(e)[-2000:]), nofail=True)
+        return True
+    oracle = vf.oracle_build('isectnode')
+    rng = ctx.rng.fork(7)
+    bodies = [b for b in (gen_ani(rng) for _ in range(n)) if b]
+    bodies += ['600 -2 -600 -4 0 -20 1 30 -3 -4']
+    bad = None
+    for v in ('lo', 'hi'):
+        lines = ['ANI %s %s' % (v, b) for b in bodies]
+        got = need(*vf.par_lines(exes[v], lines, timeout=900), 'cx_isectnode')
+        want = need(*vf.par_lines(oracle, lines, timeout=900), 'oracle_isectnode')
+        for l, g, w in zip(lines, got, want):
+            ctx.count('evaluations')
+            ctx.count('isect_node_tie_cases')
+            br = g.split()[-1] if g.split() else '?'
+            ctx.hist('isect_node_branch.' + v, ANI_BRANCH.get(int(br), br) if br.lstrip('-').isdigit() else br)
+            if g.strip() != w.strip():
+                ctx.count('isect_node_tie_mismatches')
+                if bad is None or len(l) < len(bad[0]):
+                    bad = (l, g.strip(), w.strip())
+    if bad:
+        ctx.violation('tie.isect-node', 'AddNewIntersectNode and the model IsectNode.v disagree on %d synthetic edge pairs, e.g. %s -> C++ %s / model %s (x y branch)'
+                      % (ctx.cov.get('isect_node_tie_mismatches', 0), bad[0], bad[1], bad[2]),
+                      replay=dict(kind='ani', line=bad[0], cpp=bad[1], model=bad[2]), nofail=True)
+    return bad is not None
+
+
 def load_corpus():
     cases = []
     for f in sorted(glob.glob(os.path.join(vf.VERIF, 'corpus', 'C03', '*.case'))):
@@ -803,6 +875,7 @@ def run(ctx):
         ctx.log('synthetic rings and leaf hypothesis')
         syn_bad = phase_synthetic(ctx, env, 20000 * mul)
         leaf_hypothesis(ctx, env, 20000 * mul)
+    ani_bad = phase_isect_node(ctx, 30000 * mul)
     rng = ctx.rng.fork(1)
     nasty = [nasty_case(rng) for _ in range(2500 * mul)]
     phase_stream(ctx, env, nasty, 'nasty', combos_per_case=4, builds=('plain', 'hi'))
@@ -817,7 +890,7 @@ def run(ctx):
         ctx.sample(dict(S=c['S'], C=c['C'], O=c.get('O', []), kind=c['kind'], regime=c['regime']))
     # search on break: the model and the code disagree (or the proof / harness is broken) and no input violating the
     # property is known yet -> many more real runs where ring finalisation has work to do
-    tie_broken = syn_bad is not None or any(v['key'].startswith('tie') for v in ctx.violations)
+    tie_broken = syn_bad is not None or ani_bad or any(v['key'].startswith('tie') for v in ctx.violations)
     if (tie_broken or broken) and not has_failing_input(ctx):
         srng = ctx.rng.fork(2)
         for rnd in range(3 if ctx.quick else 12):
@@ -832,7 +905,7 @@ def run(ctx):
                       replay=dict(kind='syn', pc=pc, rs=rs, rings=rings, cpp=x, model=y), nofail=True)
     ctx.cov['rule'] = ('(0) corpus/C03/*.case regression inputs: all 16 clip type x fill rule combinations x all 4 PreserveCollinear/'
                        'ReverseSolution settings; (1) synthetic OutRec rings (random points in boxes 2..2^60, injected duplicates/collinear points): BuildPaths64 vs '
-                       'extracted model, exact; (2) degenerate stream (empty/1-2 point paths, duplicates, spikes, coincident and shifted copies, '
+                       'extracted model, exact; (1b) AddNewIntersectNode on synthetic edge pairs (flat / steep / |dx| = 100 +- a little / nearly parallel, scanbeams drawn independently of the crossing, 5 magnitudes, both precision builds) vs the extracted model IsectNode.v, exact; (2) degenerate stream (empty/1-2 point paths, duplicates, spikes, coincident and shifted copies, '
                        'axis-parallel walks, coordinates up to 2^62-1): 4 random clip type x fill rule combinations per case with random '
                        'PreserveCollinear/ReverseSolution, default and HI_PRECISION builds: raw rings vs model (|coord| <= 2^61), structural clause '
                        'always, bbox clause for |coord| <= 2^52; (3) general position (extracted Coq predicate) in 7 coordinate regimes and '
@@ -869,6 +942,14 @@ def replay(ctx, path):
         gc, pos = vf.parse_paths(t, 2); go, pos = vf.parse_paths(t, pos)
         if st != 'OK' or (gc, go) != (mc, mo):
             ctx.violation('tie.ringfinal', 'replayed: BuildPaths64 and the model disagree', replay=r, nofail=True)
+        return
+    if kind == 'ani':
+        v = r['line'].split()[1]
+        x = vf.run_lines(vf.build_cpp(ctx, 'cx_isectnode.cpp', 'plain' if v == 'lo' else 'hi'), [r['line']]).stdout.strip()
+        y = vf.run_lines(vf.oracle_build('isectnode'), [r['line']]).stdout.strip()
+        print('C++  :', x); print('model:', y)
+        if x != y:
+            ctx.violation('tie.isect-node', 'replayed: AddNewIntersectNode and the model disagree', replay=r, nofail=True)
         return
     if kind in ('leaf', 'line'):
         exe = env.exes['rings'] if kind == 'leaf' or str(r['line']).startswith(('RINGS', 'SYN')) else env.exes['bool.' + r.get('build', 'plain')]
